@@ -224,14 +224,23 @@ def rule_absolute_paths(ctx, rid="R6.5"):
             r.fail("exceptions._Error|missing|%s" % name, "exceptions.py", "%s vanished" % name)
             continue
         s = m.params[0]
-        src = [norm(n) for n in m.body]
-        ok = (
-            any(x == "parent = %s.parent" % s for x in src) and
-            any(x.startswith("if parent is None:") and "return %s.%s" % (s, rel) in x for x in src) and
-            any(x == "path = deque(%s.%s)" % (s, rel) for x in src) and
-            any(x == "path.extendleft(reversed(parent.%s))" % name for x in src) and
-            src[-1] == "return path"
-        )
+        ok = False
+        # names are free: find <p> = self.parent; if <p> is None: return self.<rel>; <q> = deque(self.<rel>);
+        # <q>.extendleft(reversed(<p>.<name>)); return <q>
+        pv = qv = None
+        for n in m.body:
+            if isinstance(n, ast.Assign) and isinstance(n.targets[0], ast.Name):
+                if norm(n.value) == "%s.parent" % s:
+                    pv = n.targets[0].id
+                elif norm(n.value) == "deque(%s.%s)" % (s, rel):
+                    qv = n.targets[0].id
+        if pv and qv:
+            src = [norm(n) for n in m.body]
+            ok = (
+                any(x.startswith("if %s is None:" % pv) and "return %s.%s" % (s, rel) in x for x in src) and
+                any(x == "%s.extendleft(reversed(%s.%s))" % (qv, pv, name) for x in src) and
+                src[-1] == "return %s" % qv
+            )
         if ok:
             r.ok(site(m), "copy of %s extended on the left by the reversed parent %s" % (rel, name))
         else:
